@@ -7,7 +7,8 @@ EXPLANATION = ('Every unsafe operation of crate logos (calls of unsafe fns, raw 
                'offset.checked_add(Chunk::SIZE).is_some_and(|end| end <= self.len()) on the same offset/receiver and Some is returned exactly on '
                'that edge; the two unchecked slicing sites use exactly span() and token_end..len, whose invariant is preserved by the closed, '
                'audited writer sets of token_start/token_end; the forbid_unsafe build has no unsafe operation, carries forbid(unsafe_code) and reads through '
-               'the checked sub-slice with the same Some-condition. Generated code is checked (genscan) to contain no unsafe, to touch the source only through lex.read and to pass in-range offsets to lex.end.')
+               'the checked sub-slice with the same Some-condition. Generated code is checked (genscan) to contain no unsafe, to touch the source only through lex.read and to pass in-range offsets to lex.end.'
+               ' Since the E5 engine: G19 + G20 (per definition) exclude an early record on an end-of-input successor (the only way a generated lexer can hand end = len + 1 to the runtime).')
 
 
 def run(ctx, rep):
